@@ -226,7 +226,7 @@ Section Chain.
 
   Lemma firstn_block m : bytes_ok m = true -> (bs c <= length m)%nat -> block_ok c (firstn (bs c) m).
   Proof.
-    intros B L. split; [rewrite firstn_length; lia | apply bytes_ok_firstn; assumption].
+    intros B L. split; [rewrite firstn_length; apply Nat.min_l; assumption | apply bytes_ok_firstn; assumption].
   Qed.
 
   Lemma enc_blk b : block_ok c b -> block_ok c (enc c key b).
